@@ -61,6 +61,8 @@ deriving Repr, Inhabited
 /-- the observable history -/
 inductive Ev where
   | reqStart                                  -- `start_machine` entered (mixin)
+  | reqStop                                   -- `stop_machine` entered (mixin)
+  | reqDone (start : Bool)                    -- `start_machine` (`true`) / `stop_machine` (`false`) returned
   | post (r : Req)                            -- a request replaced `next_task`
   | take                                      -- `cycle` took `next_task` (the swap under the lock)
   | cycleBegin
@@ -139,16 +141,17 @@ def startMachineB (σ : SM) (r : Req) : SM :=
   σ.log (.status σ.status)
 
 def startMachine (cfg : Cfg) (σ : SM) (s : Sid) (cl : Option Cid) (kw : Attrs) (ovr : Option Status) : SM :=
-  startMachineB (startMachineA cfg (σ.log .reqStart) s ovr) (.start s cl kw ovr)
+  (startMachineB (startMachineA cfg (σ.log .reqStart) s ovr) (.start s cl kw ovr)).log (.reqDone true)
 
-/-- `stop_machine(stopped_status)` -/
+/-- `stop_machine(stopped_status)`: `if sm.is_active:` … — nothing happens when no state function is active -/
 def stopMachine (cfg : Cfg) (σ : SM) (stopped : Status) : SM :=
+  let σ := σ.log .reqStop
   match σ.statefunc with
-  | none => σ
+  | none => σ.log (.reqDone false)
   | some cur =>
     let σ := post { σ with idleStatus := stopped } (.stop stopped)
     let st := stopStatus cfg.rules cur σ.status
-    { σ with status := st }.log (.status st)
+    ({ σ with status := st }.log (.status st)).log (.reqDone false)
 
 /-- one request, bare machine or mixin -/
 def request (cfg : Cfg) (σ : SM) (r : Req) : SM :=
